@@ -1592,6 +1592,54 @@ def rule_undefined_label(chk, prog, tier):
     r.exhaustive = True
 
 
+def rule_specifier_sets(chk, prog, tier):
+    r = chk.rule('C10.x', 'storage-class specifiers: at most one per declaration, except that thread_local may be combined with static or extern, in any order and for any number of specifiers written (6.7.1p2); '
+                 'function specifiers accumulate: `inline _Noreturn` in either order (and repeated) gives both', floor=250, oracle='C11 6.7.1p2, 6.7.4p5')
+    import itertools
+    sc_fn = prog.require_func('storageclass', 'decl.c')
+    fs_fn = prog.require_func('funcspec', 'decl.c')
+    SCK = {'typedef': ('TTYPEDEF', 'SCTYPEDEF'), 'extern': ('TEXTERN', 'SCEXTERN'), 'static': ('TSTATIC', 'SCSTATIC'), 'thread_local': ('TTHREAD_LOCAL', 'SCTHREADLOCAL'), 'auto': ('TAUTO', 'SCAUTO'), 'register': ('TREGISTER', 'SCREGISTER')}
+    FSK = {'inline': ('TINLINE', 'FUNCINLINE'), '_Noreturn': ('T_NORETURN', 'FUNCNORETURN')}
+    def drive(fn, table, seq, zero):
+        def runner(it):
+            toks = [table[k][0] for k in seq] + ['TINT']
+            tokobj = it.gobj('tok'); st = {'i': 0}
+            def load():
+                tokobj.f[('kind',)] = ev(prog, toks[min(st['i'], len(toks) - 1)]); tokobj.f[('lit',)] = None
+                tokobj.f[('loc', 'file')] = None; tokobj.f[('loc', 'line')] = 1; tokobj.f[('loc', 'col')] = 1
+            def nxt(i2, a, e): st['i'] += 1; load(); return None
+            it.models.update({'next': nxt, 'error': lambda i2, a, e: (_ for _ in ()).throw(Terminal('error', cmodel.fmt_of(i2, a, 1)))})
+            load()
+            acc = Obj('acc', 'local'); acc.f[()] = ev(prog, zero)
+            n = 0
+            while it.call(fn, [Ptr(acc, ())]): n += 1
+            return n, acc.f[()]
+        runs = explore(prog, runner, {}, max_runs=4, on_unsupported='keep')
+        if len(runs) != 1 or runs[0].outcome not in ('return', 'terminal:error'):
+            raise AnalysisBroken('%s %s: %s' % (fn['name'], seq, [(x.outcome, x.detail) for x in runs][:2]))
+        return runs[0]
+    for n in (1, 2, 3):
+        for seq in itertools.product(SCK, repeat=n):
+            st_ = set(seq)
+            valid = len(seq) == len(st_) and (len(st_) == 1 or st_ in ({'thread_local', 'static'}, {'thread_local', 'extern'}))
+            run = drive(sc_fn, SCK, seq, 'SCNONE')
+            key = 'storage-class:%s' % ' '.join(seq)
+            if valid:
+                want = 0
+                for k in seq: want |= ev(prog, SCK[k][1])
+                r.instance(run.outcome == 'return' and run.value == (len(seq), want), key, 'decl.c:%s' % sc_fn.get('line'), 'valid: all %d specifiers are taken and recorded; cproc: %s %s' % (len(seq), run.outcome, run.value if run.outcome == 'return' else run.detail))
+            else:
+                r.instance(run.outcome == 'terminal:error', key, 'decl.c:%s' % sc_fn.get('line'), 'more than one storage-class specifier (other than thread_local with static/extern): must be diagnosed; cproc accepts %s' % (run.value,))
+    for n in (1, 2, 3):
+        for seq in itertools.product(FSK, repeat=n):
+            run = drive(fs_fn, FSK, seq, 'FUNCNONE')
+            want = 0
+            for k in seq: want |= ev(prog, FSK[k][1])
+            r.instance(run.outcome == 'return' and run.value == (len(seq), want), 'function-specifiers:%s' % ' '.join(seq), 'decl.c:%s' % fs_fn.get('line'),
+                       'the declaration has the specifiers %s; cproc records %s' % (sorted(set(seq)), run.value if run.outcome == 'return' else run.outcome))
+    r.exhaustive = True
+
+
 def run(chk, tier):
     from props import c01f
     prog = facts.programs()['cproc-qbe']
@@ -1621,6 +1669,7 @@ def run(chk, tier):
     chk.guard('C10.u', lambda: rule_tagspec_syntax(chk, prog, tier))
     chk.guard('C10.v', lambda: rule_addressof(chk, prog, tier))
     chk.guard('C10.w', lambda: rule_undefined_label(chk, prog, tier))
+    chk.guard('C10.x', lambda: rule_specifier_sets(chk, prog, tier))
     from props import c08
     chk.guard('C08.e', lambda: c08.rule_valist(chk, prog, tier))        # va_arg of a structure or union (unsupported) is diagnosed
     from props import c05
